@@ -731,6 +731,35 @@ func (s *sysState) attack(shape string, k int) (string, string) {
 	case "cname-inzone":
 		// an honest in-zone alias chain answered in one message must survive the filter
 		trigger = "c.evil.test."
+	case "dname-forged", "dname-forged-nocname", "dname-forged-txt", "dname-forged-last":
+		// the attacker's own DNAME onto the victim zone, the synthesised CNAME, AND a forged record of the
+		// asked type owned by the substituted target name - all in the message that carried the DNAME
+		dn := fmt.Sprintf("dn%d.%s", k, evilZone)
+		trigger = "www." + dn
+		if shape == "dname-forged-txt" {
+			qtype = dns.TypeTXT
+			trigger = "txt." + dn
+		}
+		tq := qtype
+		tname := trigger
+		s.scripts[lcn(trigger)] = func(q dns.Question, honest *dns.Msg) *dns.Msg {
+			m := base(q, honest)
+			target := strings.TrimSuffix(lcn(tname), dn) + victimZone
+			dname := &dns.DNAME{Hdr: dns.RR_Header{Name: dn, Rrtype: dns.TypeDNAME, Class: dns.ClassINET, Ttl: 300}, Target: victimZone}
+			var forged dns.RR = rrA(target, forgedIP)
+			if tq == dns.TypeTXT {
+				forged = rrTXT(target, "forged")
+			}
+			switch shape {
+			case "dname-forged-nocname":
+				m.Answer = []dns.RR{dname, forged}
+			case "dname-forged-last":
+				m.Answer = []dns.RR{forged, rrCNAME(q.Name, target), dname}
+			default:
+				m.Answer = []dns.RR{dname, rrCNAME(q.Name, target), forged}
+			}
+			return m
+		}
 	case "cname-honest":
 		script(func(m *dns.Msg) { m.Answer = []dns.RR{rrCNAME(qn, "www.victim.test.")} })
 	// ---- the relay shapes again, dressed as signed data: an RRSIG (signer evil.test., arbitrary
@@ -1131,6 +1160,7 @@ func (s *sysState) attack(shape string, k int) (string, string) {
 var allShapes = []string{
 	"extra-a", "extra-ns-glue", "auth-ns", "auth-a", "ans-a", "ans-foreign-only", "ans-ns", "ans-dname",
 	"cname-forged", "cname-forged-ghost", "cname-forged-txt", "cname-honest", "dname-honest", "cname-inzone",
+	"dname-forged", "dname-forged-nocname", "dname-forged-txt", "dname-forged-last", "dname-forged.nxsoa",
 	"nx-soa-victim", "nodata-extra",
 	"ref-self", "ref-up", "ref-root", "ref-side", "ref-mixed", "ref-class", "ref-offpath",
 	"glue-oob", "glue-strsuffix", "glue-notns", "glue-loop", "glue-local",
